@@ -732,20 +732,36 @@ def _r4(w: World, rep: Report):
                   facts={'counts': counts})
     # the plugin runner itself: every plugin of the scope, once, in order, with the run's objects
     rp = w.repo.func('functions', 'run_plugins')
+    # one iteration construct over the scope's plugin list: a for statement or a comprehension
     fors = [n for n in ast.walk(rp.node) if isinstance(n, ast.For)]
-    ok, why = len(fors) == 1, 'run_plugins does not have exactly one loop over the plugins'
+    comps = [n for n in ast.walk(rp.node) if isinstance(n, (ast.ListComp, ast.GeneratorExp))]
+    ok, why = len(fors) + len(comps) == 1, 'run_plugins does not have exactly one loop over the plugins'
     if ok:
-        f = fors[0]
-        it = ast.unparse(f.iter).replace(' ', '')
         scope_p, tape_p, stack_p, cache_p = rp.params[:4]
-        if it != f'{tape_p}.plugins[{scope_p}]':
+        if fors:
+            f = fors[0]
+            it_node, target, body_nodes = f.iter, f.target, list(ast.walk(f))
+            filtered = any(isinstance(n, (ast.Break, ast.Continue, ast.Return, ast.If, ast.Try)) for n in ast.walk(f))
+        else:
+            c = comps[0]
+            ok = len(c.generators) == 1
+            it_node, target = c.generators[0].iter, c.generators[0].target
+            body_nodes = list(ast.walk(c.elt))
+            filtered = bool(c.generators[0].ifs) or any(isinstance(n, ast.IfExp) for n in ast.walk(c.elt))
+            if isinstance(c, ast.GeneratorExp):
+                # a lazy generator runs the plugins only as far as it is consumed
+                par = [p for p in ast.walk(rp.node) if isinstance(p, ast.Call) and c in p.args]
+                filtered = filtered or not (par and isinstance(par[0].func, ast.Name) and par[0].func.id in ('list', 'tuple'))
+        it = ast.unparse(it_node).replace(' ', '')
+        # `plugins[scope]` under a presence test, or `plugins.get(scope, [])`
+        if it not in (f'{tape_p}.plugins[{scope_p}]', f'{tape_p}.plugins.get({scope_p},[])', f'{tape_p}.plugins.get({scope_p},())'):
             ok, why = False, f'the loop iterates `{it}`, not the tape\'s plugins of the requested scope'
-        calls = [n for n in ast.walk(f) if isinstance(n, ast.Call) and isinstance(n.func, ast.Name)
-                 and n.func.id == ast.unparse(f.target)]
+        calls = [n for n in body_nodes if isinstance(n, ast.Call) and isinstance(n.func, ast.Name)
+                 and n.func.id == ast.unparse(target)]
         if ok and (len(calls) != 1 or [ast.unparse(a) for a in calls[0].args] != [tape_p, stack_p, cache_p]):
             ok, why = False, 'a plugin is not called exactly once per iteration with (tape, stack, cache)'
-        if ok and any(isinstance(n, (ast.Break, ast.Continue, ast.Return, ast.If, ast.Try)) for n in ast.walk(f)):
-            ok, why = False, 'the plugin loop can skip or stop early (break / continue / condition / try)'
+        if ok and filtered:
+            ok, why = False, 'the plugin loop can skip or stop early (break / continue / condition / try / lazy generator)'
     rep.check('C09.R4', 'functions.run_plugins|every-plugin-once', ok, line=rp.node.lineno, file=REL, why='' if ok else why)
     rse = w.repo.func('functions', 'run_sig_extensions')
     calls = [n for n in ast.walk(rse.node) if isinstance(n, ast.Call) and dotted(n.func) == 'run_plugins']
